@@ -123,3 +123,18 @@ class Macros:
 
     def __getitem__(self, k):
         return self.all[k]
+
+
+# ------------------------------------------------------------------------------------------------------------
+# Reference knowledge that is NOT taken from the tree under observation
+# ------------------------------------------------------------------------------------------------------------
+# Siegbahn -> IUPAC correspondence of the X-ray diagram lines (IUPAC nomenclature, Jenkins, Manne, Robin, Senemaud, X-Ray Spectrom. 20
+# (1991) 149, table 1; 'L3O45' / 'L3N6' are the members xraylib publishes for the unresolved pairs L3-O4,5 and L3-N6,7).
+SIEGBAHN = dict(KA1='KL3', KA2='KL2', KA3='KL1', KB1='KM3', KB2='KN3', KB3='KM2', KB4='KN5', KB5='KM5',
+                LA1='L3M5', LA2='L3M4', LB1='L2M4', LB2='L3N5', LB3='L1M3', LB4='L1M2', LB5='L3O45', LB6='L3N1', LB7='L3O1', LB9='L1M5',
+                LB10='L1M4', LB15='L3N4', LB17='L2M3', LG1='L2N4', LG2='L1N2', LG3='L1N3', LG4='L1O3', LG5='L2N1', LG6='L2O4', LG8='L2O1',
+                LE='L2M1', LH='L2M1', LL='L3M1', LS='L3M3', LT='L3M2', LU='L3N6', LV='L2N6', MA1='M5N7', MA2='M5N6', MB='M4N6', MG='M3N5')
+
+# CODATA 2010 values in the units of the public header (mol-1 barn-1 cm2; keV Angstrom; keV; barn; m): the constants the header documents
+CONSTANTS = dict(AVOGNUM=0.602214129, KEV2ANGST=12.39841930, MEC2=510.998928, RE2=0.079407877, R_E=2.8179403267e-15,
+                 PI=3.14159265358979323846)
